@@ -67,3 +67,13 @@ Proof.
   intros n Hr. split; [apply compact_encode_length_cases|]. intros bs m. apply compact_encode_shortest. exact Hr.
 Qed.
 Print Assumptions C01_compact_encode_is_the_shortest_form.
+(* ---- the other two observation points of the codec: write_to_vec into a caller's buffer appends exactly the layout,
+   and from_slice (binary decoder first, text as the fallback) decodes every encoding *)
+From JB Require Import Dispatch TextBinProofs.
+Theorem C01_write_to_vec_appends_the_layout : forall v, wf_size v = true -> forall buf, write_to_vec buf v = buf ++ enc v.
+Proof. exact write_to_vec_spec. Qed.
+Print Assumptions C01_write_to_vec_appends_the_layout.
+
+Theorem C01_from_slice_decodes_encodings : forall v, wfb v = true -> from_slice (enc v) = Ok (normalise v).
+Proof. exact from_slice_enc. Qed.
+Print Assumptions C01_from_slice_decodes_encodings.
